@@ -1476,3 +1476,578 @@ func ruleActivationIdentity(c *Ctx, rule string) {
 	}
 	r.Floor(rule, "call sites that identify an activation", n, 1)
 }
+
+// ---------------------------------------------------------------------------------------------
+// C04.R8: `skip s` skips, whatever else the clause sets.
+//
+// The parser encodes a plain `skip s` as (all = true, skip = s, take = 0). World: `all` is true. In that world the place where a
+// match is collected must still lie behind a decision that looks at skip (directly, or inside a predicate it is handed to): a
+// membership test written as `all || (index >= skip && index < skip+take)` folds to true and reports the skipped matches too.
+func ruleSkipAppliesWhenAllIsSet(c *Ctx, rule string) {
+	r := c.R
+	mm := c.Method("engine", "SearchEngineState", "MakeMatch")
+	if mm == nil {
+		r.Ob(rule, "anchor MakeMatch", "").Und("not found")
+		return
+	}
+	named := func(v ssa.Value, want string) bool {
+		lower := func(s string) string { return strings.ToLower(s) }
+		switch x := v.(type) {
+		case *ssa.Parameter:
+			return lower(x.Name()) == want
+		case *ssa.Field:
+			return lower(fieldName(x.X.Type(), x.Field)) == want
+		case *ssa.UnOp:
+			if fa, ok := x.X.(*ssa.FieldAddr); ok && x.Op == token.MUL {
+				return lower(fieldName(deref(fa.X.Type()), fa.Field)) == want
+			}
+		}
+		return false
+	}
+	readsSkip := map[*ssa.Function]bool{}
+	for _, f := range append(c.SrcFuncs("engine"), c.SrcFuncs("bytecode")...) {
+		instrsOf(f, func(in ssa.Instruction) {
+			if v, ok := in.(ssa.Value); ok && named(v, "skip") {
+				readsSkip[f] = true
+			}
+		})
+		for _, p := range f.Params {
+			if named(p, "skip") {
+				readsSkip[f] = true
+			}
+		}
+	}
+	var dependsOnSkip func(v ssa.Value, d int) bool
+	dependsOnSkip = func(v ssa.Value, d int) bool {
+		if d > 6 {
+			return false
+		}
+		if named(v, "skip") {
+			return true
+		}
+		switch x := v.(type) {
+		case *ssa.Call:
+			if sc := x.Call.StaticCallee(); sc != nil && readsSkip[sc] {
+				return true
+			}
+			for _, a := range x.Call.Args {
+				if dependsOnSkip(a, d+1) {
+					return true
+				}
+			}
+		case *ssa.BinOp:
+			return dependsOnSkip(x.X, d+1) || dependsOnSkip(x.Y, d+1)
+		case *ssa.UnOp:
+			return dependsOnSkip(x.X, d+1)
+		case *ssa.Phi:
+			for _, e := range x.Edges {
+				if dependsOnSkip(e, d+1) {
+					return true
+				}
+			}
+		case *ssa.Convert:
+			return dependsOnSkip(x.X, d+1)
+		}
+		return false
+	}
+	n := 0
+	for _, fn := range c.SrcFuncs("engine") {
+		calls := callsTo(fn, mm)
+		if len(calls) == 0 {
+			continue
+		}
+		hasAll := false
+		instrsOf(fn, func(in ssa.Instruction) {
+			if v, ok := in.(ssa.Value); ok && named(v, "all") {
+				hasAll = true
+			}
+		})
+		for _, p := range fn.Params {
+			if named(p, "all") {
+				hasAll = true
+			}
+		}
+		// or a predicate it calls reads it (window.Done(n), window.Contains(n))
+		instrsOf(fn, func(in ssa.Instruction) {
+			if sc := staticCallee(in); sc != nil && len(sc.Blocks) > 0 {
+				instrsOf(sc, func(y ssa.Instruction) {
+					if v, ok := y.(ssa.Value); ok && named(v, "all") {
+						hasAll = true
+					}
+				})
+			}
+		})
+		interp := func(f *ssa.Function) bool {
+			return f.Pkg != nil && (f.Pkg == fn.Pkg || strings.HasSuffix(f.Pkg.Pkg.Path(), "/bytecode")) && pureFunc(f, 0)
+		}
+		seedAll := func(v ssa.Value) (constant.Value, bool) {
+			if named(v, "all") {
+				if b, ok := v.Type().Underlying().(*types.Basic); ok && b.Kind() == types.Bool {
+					return constant.MakeBool(true), true
+				}
+			}
+			return nil, false
+		}
+		for k, call := range calls {
+			n++
+			ob := r.Ob(rule, fmt.Sprintf("%s: match #%d is collected behind a test of skip even when `all` is set", fnName(fn), k+1), c.pos(call.Pos()))
+			if !hasAll {
+				ob.Und("no value named `all` is read in " + fnName(fn) + ": the clause reaches it in some other form")
+				continue
+			}
+			w := &World{Fn: fn, Seed: seedAll, Interp: interp}
+			// the callee worlds must see the seed as well (the predicate reads the field of its receiver)
+			w.Call = func(cl *ssa.Call, get func(ssa.Value) wLat) (wLat, bool) {
+				sc := cl.Call.StaticCallee()
+				if sc == nil || !interp(sc) || len(sc.Blocks) == 0 {
+					return wLat{}, false
+				}
+				var args []wLat
+				for _, a := range cl.Call.Args {
+					l := get(a)
+					if l.k == 0 {
+						l = wTop
+					}
+					args = append(args, l)
+				}
+				sub := &World{Fn: sc, Seed: seedAll, Interp: interp}
+				sub.Run(args...)
+				var res wLat
+				for _, b := range sc.Blocks {
+					if !sub.Reach[b] {
+						continue
+					}
+					if ret, ok := b.Instrs[len(b.Instrs)-1].(*ssa.Return); ok && len(ret.Results) == 1 {
+						l := sub.get(ret.Results[0])
+						if l.k == 0 {
+							l = wTop
+						}
+						res = res.join(l)
+					}
+				}
+				if res.k == 0 {
+					return wTop, true
+				}
+				return res, true
+			}
+			w.Run()
+			if !w.Reach[call.Block()] {
+				ob.Und("with `all` set the call is unreachable")
+				continue
+			}
+			looks := false
+			var open []string
+			for _, l := range domConds(fn, call.Block()) {
+				if w.get(l.Cond).k == 1 {
+					continue // decided by `all` alone
+				}
+				open = append(open, l.String())
+				if dependsOnSkip(l.Cond, 0) {
+					looks = true
+				}
+			}
+			if looks {
+				ob.OKnt("with `all` set, the decisions that stay open on the way to the call include one that looks at skip: " + strings.Join(open, " && "))
+			} else {
+				ob.Bad("with `all` set (the parser's encoding of a plain `skip s`) no decision on the way to collecting the match looks at skip any more [open: " + strings.Join(open, " && ") + "]: the first s matches are reported as well, so `skip s` is no longer a window of the `all` sequence")
+			}
+		}
+	}
+	r.Floor(rule, "places where a match record is made", n, 1)
+}
+
+// ---------------------------------------------------------------------------------------------
+// C01.R11 / C02.R9 / C14.R10: the empty text is found everywhere.
+//
+// A back-reference to a group that matched nothing, and the empty literal, match with zero width - also at the end of the input.
+// World: the text handed to MATCH is "" and `not` is false. In that world MATCH must move on (NEXT) and must not be able to
+// BACKTRACK: the test that protects non-empty literals at the end of the input (an empty read) must not catch the empty text.
+func ruleEmptyTextMatches(c *Ctx, rule string) {
+	r := c.R
+	read := c.stateMethod("READ")
+	next, bt := c.stateMethod("NEXT"), c.stateMethod("BACKTRACK")
+	if read == nil || next == nil || bt == nil {
+		r.Ob(rule, "anchor READ/NEXT/BACKTRACK", "").Und("not found")
+		return
+	}
+	// by role: the method that reads len(<its string parameter>) bytes
+	n := 0
+	for _, fn := range c.SrcFuncs("engine") {
+		if fn.Signature.Recv() == nil {
+			continue
+		}
+		var text *ssa.Parameter
+		instrsOf(fn, func(in ssa.Instruction) {
+			call, ok := in.(*ssa.Call)
+			if !ok || call.Call.StaticCallee() != read || len(call.Call.Args) != 2 {
+				return
+			}
+			if lc, ok := call.Call.Args[1].(*ssa.Call); ok {
+				if bi, ok := lc.Call.Value.(*ssa.Builtin); ok && bi.Name() == "len" && len(lc.Call.Args) == 1 {
+					if p, ok := lc.Call.Args[0].(*ssa.Parameter); ok {
+						text = p
+					}
+				}
+			}
+		})
+		if text == nil {
+			continue
+		}
+		n++
+		ob := r.Ob(rule, fnName(fn)+": the empty text matches with zero width", c.pos(fn.Pos()))
+		var notP *ssa.Parameter
+		for _, p := range fn.Params {
+			if strings.ToLower(p.Name()) == "not" {
+				notP = p
+			}
+		}
+		w := &World{Fn: fn,
+			Seed: func(v ssa.Value) (constant.Value, bool) {
+				if v == ssa.Value(text) {
+					return constant.MakeString(""), true
+				}
+				if notP != nil && v == ssa.Value(notP) {
+					return constant.MakeBool(false), true
+				}
+				if call, ok := v.(*ssa.Call); ok && call.Call.StaticCallee() == read {
+					// zero bytes were asked for
+					if l := len(call.Call.Args); l == 2 {
+						return constant.MakeString(""), true
+					}
+				}
+				return nil, false
+			},
+			Interp: func(f *ssa.Function) bool { return f.Pkg == fn.Pkg && pureFunc(f, 0) },
+		}
+		w.Run()
+		reachNext, reachBT := false, false
+		for _, b := range fn.Blocks {
+			if !w.Reach[b] {
+				continue
+			}
+			for _, in := range b.Instrs {
+				switch staticCallee(in) {
+				case next:
+					reachNext = true
+				case bt:
+					reachBT = true
+				}
+			}
+		}
+		switch {
+		case reachNext && !reachBT:
+			ob.OKnt("with the text fixed to \"\" (and not negated) the only way through " + fn.Name() + " ends in NEXT")
+		case reachBT && !reachNext:
+			ob.Bad("with the text fixed to \"\" " + fn.Name() + " can only BACKTRACK: the empty read that stands for the end of the input also catches the empty text, so a back-reference to a group that matched nothing (`(a*)b\\1` on \"b\") and the empty literal never match")
+		case reachBT:
+			ob.Bad("with the text fixed to \"\" " + fn.Name() + " can still BACKTRACK: where the empty text matches depends on something else than the text")
+		default:
+			ob.Und("neither NEXT nor BACKTRACK is reachable with the text fixed to \"\"")
+		}
+	}
+	r.Floor(rule, "methods that match a given text", n, 1)
+}
+
+// ---------------------------------------------------------------------------------------------
+// C13.R12 / C14.R9: group numbering restarts with every regular-expression literal, and every capturing group takes a number.
+func ruleGroupNumbering(c *Ctx, rule string, everyGroupNumbered bool) {
+	r := c.R
+	E := c.Fn("ast", "parse_regexp")
+	decT := c.NamedType("ast", "AstDec")
+	if E == nil || decT == nil {
+		r.Ob(rule, "anchor ast.parse_regexp / AstDec", "").Und("not found")
+		return
+	}
+	below := c.Reachable(E)
+	// the counter(s): package-level integers written below the entry
+	writers := map[*ssa.Global][]*ssa.Function{}
+	for f := range below {
+		if !c.isRepoFn(f) {
+			continue
+		}
+		instrsOf(f, func(in ssa.Instruction) {
+			if st, ok := in.(*ssa.Store); ok {
+				if g, ok := st.Addr.(*ssa.Global); ok && c.isRepoPkg(g.Pkg.Pkg) {
+					if _, isConst := st.Val.(*ssa.Const); isConst && f == E {
+						return // the reset itself
+					}
+					writers[g] = append(writers[g], f)
+				}
+			}
+		})
+	}
+	if len(writers) == 0 {
+		r.Ob(rule, "the regexp sub-parser keeps no package-level counter", c.pos(E.Pos())).OKnt("nothing below parse_regexp writes a package-level variable")
+		return
+	}
+	var gs []*ssa.Global
+	for g := range writers {
+		gs = append(gs, g)
+	}
+	sort.Slice(gs, func(i, j int) bool { return gs[i].Name() < gs[j].Name() })
+	for _, g := range gs {
+		ob := r.Ob(rule, "parse_regexp restarts "+g.Name()+" for every regexp literal", c.pos(E.Pos()))
+		var resets []*ssa.Store
+		instrsOf(E, func(in ssa.Instruction) {
+			if st, ok := in.(*ssa.Store); ok && st.Addr == ssa.Value(g) {
+				if _, isConst := st.Val.(*ssa.Const); isConst {
+					resets = append(resets, st)
+				}
+			}
+		})
+		isWriter := map[*ssa.Function]bool{}
+		for _, f := range writers[g] {
+			isWriter[f] = true
+		}
+		okAll := len(resets) > 0
+		why := "no constant store to " + g.Name() + " in parse_regexp"
+		instrsOf(E, func(in ssa.Instruction) {
+			call, ok := in.(ssa.CallInstruction)
+			if !ok {
+				return
+			}
+			for _, callee := range c.calleesOf(call) {
+				reaches := isWriter[callee]
+				for f := range isWriter {
+					if c.Reachable(callee)[f] {
+						reaches = true
+					}
+				}
+				if !reaches {
+					continue
+				}
+				dom := false
+				for _, rs := range resets {
+					if instrDominates(rs, in) {
+						dom = true
+					}
+				}
+				if !dom {
+					okAll = false
+					if len(resets) > 0 {
+						why = "the call to " + fnName(callee) + " is not dominated by the reset"
+					}
+				}
+			}
+		})
+		if okAll {
+			ob.OKnt(g.Name() + " is stored with a constant before the literal's groups are parsed")
+		} else {
+			ob.Bad(why + ": the groups of the second regexp literal of a source are numbered on from the first one's, so `\\1` in a command means something else than in the same command alone (`find all @/(a)/ find all @/(b)\\1/` is rejected, `find all @/(b)\\1/` is not)")
+		}
+		if !everyGroupNumbered {
+			continue
+		}
+		// every capturing group takes a number: each place below the entry that builds a declaration is dominated by a store to the counter
+		k := 0
+		for f := range below {
+			if !c.isRepoFn(f) {
+				continue
+			}
+			var stores []*ssa.Store
+			instrsOf(f, func(in ssa.Instruction) {
+				if st, ok := in.(*ssa.Store); ok && st.Addr == ssa.Value(g) {
+					stores = append(stores, st)
+				}
+			})
+			instrsOf(f, func(in ssa.Instruction) {
+				a, ok := in.(*ssa.Alloc)
+				if !ok || !types.Identical(deref(a.Type()), decT) {
+					return
+				}
+				k++
+				// by role: a group named by the pattern, or one that is only numbered (its name is formatted from the counter)
+				kind := "a named group (?<name>...)"
+				for _, ref := range *a.Referrers() {
+					if fa, ok := ref.(*ssa.FieldAddr); ok && fieldName(decT, fa.Field) == "Name" {
+						for _, r2 := range *fa.Referrers() {
+							if st, ok := r2.(*ssa.Store); ok && st.Addr == ssa.Value(fa) {
+								if cl, ok := st.Val.(*ssa.Call); ok && cl.Call.StaticCallee() != nil && cl.Call.StaticCallee().Name() == "Sprintf" {
+									kind = "a plain group (...)"
+								}
+							}
+						}
+					}
+				}
+				ob2 := r.Ob(rule, "regexp sub-parser: "+kind+" takes a group number", c.pos(a.Pos()))
+				dom := false
+				for _, st := range stores {
+					if instrDominates(st, a) {
+						dom = true
+					}
+				}
+				if dom {
+					ob2.OKnt("the declaration is built after " + g.Name() + " was stepped")
+				} else {
+					ob2.Bad("a group that captures (it is built as a declaration) does not step " + g.Name() + ": named groups are left out of the numbering, so `(?<x>a)(b)\\1` takes `\\1` for the second group and `\\2` is undefined")
+				}
+			})
+		}
+	}
+}
+
+// ---------------------------------------------------------------------------------------------
+// mustPrecedeReturns: on every path from the entry to a return, an instruction for which event() holds is executed
+// (must-dataflow over the CFG, greatest fixpoint). Returns the position of a return that can be reached without one.
+func mustPrecedeReturns(c *Ctx, fn *ssa.Function, event func(ssa.Instruction) bool) (bool, string) {
+	if len(fn.Blocks) == 0 {
+		return false, "no body"
+	}
+	dead := exhaustedEnumEdges(fn)
+	in, out := map[*ssa.BasicBlock]bool{}, map[*ssa.BasicBlock]bool{}
+	for _, b := range fn.Blocks {
+		in[b], out[b] = true, true
+	}
+	in[fn.Blocks[0]] = false
+	for changed := true; changed; {
+		changed = false
+		for _, b := range fn.Blocks {
+			v := b != fn.Blocks[0]
+			if v {
+				for _, p := range b.Preds {
+					if dead[[2]*ssa.BasicBlock{p, b}] {
+						continue
+					}
+					if !out[p] {
+						v = false
+					}
+				}
+			}
+			o := v
+			for _, x := range b.Instrs {
+				if event(x) {
+					o = true
+				}
+			}
+			if v != in[b] || o != out[b] {
+				in[b], out[b] = v, o
+				changed = true
+			}
+		}
+	}
+	for _, b := range fn.Blocks {
+		if ret, ok := b.Instrs[len(b.Instrs)-1].(*ssa.Return); ok && !out[b] {
+			p := c.pos(ret.Pos())
+			if p == "" {
+				p = "the end of " + fn.Name()
+			}
+			return false, p
+		}
+	}
+	return true, ""
+}
+
+// C10.R11: every handler of a replacer instruction advances the replacer's program counter on every returning path.
+// The driver runs `for pc < len(replacer)`; a handler that can return without stepping executes the same instruction for ever.
+func ruleReplacerHandlersMove(c *Ctx, rule string) {
+	r := c.R
+	rsT := c.NamedType("engine", "ReplacerState")
+	disp := c.Fn("engine", "executeReplace")
+	if rsT == nil || disp == nil {
+		r.Ob(rule, "anchor engine.ReplacerState / executeReplace", "").Und("not found")
+		return
+	}
+	// the counter: the int field of the replacer state that the driver compares with the length of the replacer program
+	isPcStore := func(in ssa.Instruction) bool {
+		st, ok := in.(*ssa.Store)
+		if !ok {
+			return false
+		}
+		fa, ok := st.Addr.(*ssa.FieldAddr)
+		if !ok || !types.Identical(deref(fa.X.Type()), rsT) {
+			return false
+		}
+		if !strings.Contains(strings.ToLower(fieldName(rsT, fa.Field)), "counter") {
+			return false
+		}
+		// a step: counter + constant (copying the counter into a new state is not one)
+		b, ok := st.Val.(*ssa.BinOp)
+		if !ok || b.Op != token.ADD {
+			return false
+		}
+		k, isK := constInt(b.Y)
+		return isK && k > 0
+	}
+	// movers: functions that store the counter, or call a mover, on each of their paths (greatest fixpoint)
+	movers := map[*ssa.Function]bool{}
+	var cands []*ssa.Function
+	for _, f := range c.SrcFuncs("engine") {
+		takes := false
+		for _, p := range f.Params {
+			if types.Identical(deref(p.Type()), rsT) {
+				takes = true
+			}
+		}
+		if takes && len(f.Blocks) > 0 && f != disp {
+			cands = append(cands, f)
+			movers[f] = true
+		}
+	}
+	for changed := true; changed; {
+		changed = false
+		for _, f := range cands {
+			if !movers[f] {
+				continue
+			}
+			ok, _ := mustPrecedeReturns(c, f, func(in ssa.Instruction) bool {
+				if isPcStore(in) {
+					return true
+				}
+				sc := staticCallee(in)
+				return sc != nil && sc != f && movers[sc]
+			})
+			if !ok {
+				movers[f] = false
+				changed = true
+			}
+		}
+	}
+	var handlers []*ssa.Function
+	takesInstr := func(f *ssa.Function) bool {
+		for _, p := range f.Params {
+			if nt, ok := deref(p.Type()).(*types.Named); ok && nt.Obj().Pkg() != nil && strings.HasSuffix(nt.Obj().Pkg().Path(), "/bytecode") {
+				return true
+			}
+		}
+		return false
+	}
+	instrsOf(disp, func(in ssa.Instruction) {
+		returnsState := func(f *ssa.Function) bool {
+			res := f.Signature.Results()
+			return res.Len() == 1 && types.Identical(deref(res.At(0).Type()), rsT)
+		}
+		if sc := staticCallee(in); sc != nil && c.isRepoFn(sc) && sc.Pkg == disp.Pkg && len(sc.Blocks) > 0 && sc != disp && takesInstr(sc) && returnsState(sc) {
+			for _, p := range sc.Params {
+				if types.Identical(deref(p.Type()), rsT) {
+					handlers = append(handlers, sc)
+					return
+				}
+			}
+		}
+	})
+	if len(handlers) == 0 {
+		// the dispatcher executes the instructions itself
+		handlers = append(handlers, disp)
+		movers[disp] = false
+	}
+	for _, h := range handlers {
+		ob := r.Ob(rule, fnName(h)+" advances the replacer's program counter on every path", c.pos(h.Pos()))
+		if movers[h] {
+			ob.OKnt("every return is preceded by a store to the counter or a call that always makes one (NEXT, or a write helper that ends in it)")
+			continue
+		}
+		okH, where := mustPrecedeReturns(c, h, func(in ssa.Instruction) bool {
+			if isPcStore(in) {
+				return true
+			}
+			sc := staticCallee(in)
+			return sc != nil && sc != h && movers[sc]
+		})
+		if okH {
+			ob.OKnt("every return is preceded by a store to the counter or a call that always makes one")
+			continue
+		}
+		ob.Bad("the return at " + where + " can be reached without the program counter having been advanced: the driver loop `for programCounter < len(replacer)` executes the same instruction again, for ever")
+	}
+	r.Floor(rule, "replacer instruction handlers", len(handlers), 1)
+}
